@@ -29,8 +29,9 @@ ASSUMPTIONS = [
     "coordinates 0..N-1 per rank (N<=3), depth 2-4, leaf default 0, position-tagged positive int leaf values",
     "style 'linear' is only generated where the flattened lower ranks have an authoritative shape (declared tensor "
     "shape / Fiber(shape=)), which Fiber._flattenCoords documents as required",
-    "flattenRanks with 'absolute'/'relative' is only judged when no two *stored* points share an image "
-    "(flattening never merges: the library raises ValueError by design); collisions are exercised through mergeRanks",
+    "flattenRanks with 'absolute'/'relative' is only judged when no two *stored* elements of the lowest flattened "
+    "rank receive the same coordinate in the same fiber (flattening never merges payloads, leaves or sub-fibers: the "
+    "library raises ValueError by design); collisions are exercised through mergeRanks",
     "merge functions sum (also as the default merge_fn=None) and max over positive values with leaf default 0, so "
     "explicit defaults do not change a reduction",
     "Fiber.swapRanks / Fiber.unflattenRanks (and their *Below forms) on a raw fiber that is empty in the library's "
@@ -245,7 +246,7 @@ def g_flatten(k):
                 continue
             feats = {"d=%d" % d, "levels=%d" % l, "style:" + style}
             if style in ("absolute", "relative"):
-                if R.collides(k.stored, d, l, style, dims):
+                if R.rank_collides(R.stored_prefixes(k.spec, D, d + l + 1), d, l, style, dims):
                     cur.path("flatten:%s:collision-skipped" % style)
                     continue
                 cur.path("flatten:%s:injective" % style)
